@@ -381,3 +381,9 @@ def run(ctx: Ctx, rep: Report, tier: str):
     from rules.C10 import C10 as _C10
     _alias6(rep, ["C10.T7"], "C06.R15", "a download recorded before the stop is reused after the restart only for the content it came from: the persisted temp-file name is a "
             "function of the side's current hash and path (C10.T7)", 2, lambda: _C10(ctx, rep).t7())
+    from rules.common import walk_iterates_inside_try
+    rep.rule("C06.R16", "a folder that vanishes during the restart walk does not end the walk: Provider._walk iterates listdir() inside the try that forgives it", 1)
+    section(rep, lambda: walk_iterates_inside_try(ctx, rep, "C06.R16"))
+    from rules.C08 import C08 as _C08c
+    from rules.common import alias as _alias_c
+    _alias_c(rep, ["C08.R5"], "C06.R17", "an entry whose row could not be written stays dirty: storage_commit empties the dirty set only after every entry was written (C08.R5), so a cursor saved later never vouches for an entry that is not in storage", 1, lambda: _C08c(ctx, rep).r5(), keep=lambda i: i.key.startswith("storage_commit|"))
